@@ -70,7 +70,7 @@ MANIFEST = {
                 "System calls of the translated Process-object functions: ::close / ::kill append to a trace, `waitpid(pid, &status, 0) != "
                 "(pid_t)pid` is one oracle-answered condition (waitpid returns the requested pid or -1), CSemProc.lean.  "
                 "Everything of Process.cpp OTHER than nextChar / read / the Arguments constructor / splitCommandLine / Process(), ~Process, "
-                "isRunning, kill, join, close, exit, the 2- and 3-argument read, write, setEnvironmentVariable, daemonize (i.e. start, open, wait, interrupt, getEnvironmentVariable(s), prepareEnv) is still a HAND translation into the model, validated by the "
+                "isRunning, kill, join, close, exit, the 2- and 3-argument read, write, setEnvironmentVariable, getEnvironmentVariable, daemonize (i.e. start, open, wait, interrupt, getEnvironmentVariables, prepareEnv) is still a HAND translation into the model, validated by the "
                 "correspondence run, not proved.  A harmless restructuring of a translated body breaks the equality proof (reported as "
                 "'proof obligations / model tie no longer check' without failing input).  Checked-memory abstraction (one block per argv word / option name, the option table holds "
                 "null or NUL-free terminated names); Map iteration = ascending key order (C01).  'getopt rules' means the "
